@@ -18,7 +18,12 @@ O(c, op, nm, b, v, k, ch) == [ctx |-> c, op |-> op, n |-> nm, b |-> b, v |-> v, 
 AllOps ==
        {O(c, "set", nm, b, 0, "", 0) : c \in Ctxs, nm \in Names, b \in Boxes}
   \cup {O(c, op, nm, 0, 0, "", 0) : c \in Ctxs, op \in {"get", "del"}, nm \in Names}
-  \cup {O(c, op, "", 0, 0, "", 0) : c \in Ctxs, op \in {"iter", "release", "pop", "top", "release_stack", "cleanup"}}
+  \cup {O(c, op, "", 0, 0, "", 0) : c \in Ctxs, op \in {"iter", "release", "pop", "top", "release_stack", "cleanup",
+                                                            "release_dunder", "release_stack_dunder", "pop_all"}}
+  \cup {O(c, "mkmgr", "", 0, 0, k, 0) : c \in Ctxs, k \in MgrForms}
+  \cup {O(c, "mgr_append", "", 0, 0, k, 0) : c \in Ctxs, k \in {"local", "stack"}}
+  \cup {O(c, "mw", nm, b, v, k, 0) : c \in Ctxs, nm \in Names, b \in Boxes, v \in MwVariants, k \in MwForms}
+  \cup {O(c, "mw", "", b, v, k, 0) : c \in Ctxs, b \in MwPush, v \in MwVariants, k \in MwForms}
   \cup {O(c, "push", "", b, 0, "", 0) : c \in Ctxs, b \in Boxes}
   \cup {O(c, op, "", 0, 0, k, 0) : c \in Ctxs, op \in {"mkproxy", "proxy_read"}, k \in PKinds}
   \cup {O(c, "proxy_mutate", "", 0, v, k, 0) : c \in Ctxs, v \in Vals, k \in PKinds}
@@ -30,6 +35,7 @@ AllOps ==
 Allowed(S, o) == /\ o.op \in OpKinds
                  /\ Enabled(S, o)
                  /\ (o.op = "push" => Len(S.stack[o.ctx]) < MaxStack)
+                 /\ (o.op = "mw" /\ o.n = "" /\ o.b # NoBox => Len(S.stack[o.ctx]) < MaxStack)
                  \* lists grown through a proxy stay small
                  /\ (o.op \in {"proxy_iadd", "proxy_imul"} =>
                         LET b == Bound(S, o.ctx, o.k) IN
